@@ -1,6 +1,6 @@
 """unit glue: how class parser fills grammar_info and the name tables from the DSL objects: symbol constructors, analyze_eof,
 analyze_error_recovery_token, analyze_term<TermIdx>, analyze_nterm (both), make_symbol (both), analyze_rule<Nr>.
-R9: TermIdx / Nr / sizeof...(R) are ghost parameters; R18: the one pack expansion in analyze_rule,
+R9: TermIdx / Nr / sizeof...(R) are ghost parameters; R21: the one pack expansion in analyze_rule,
 (void(gi.right_sides[Nr][I] = make_symbol(std::get<I>(r.get_r()))), ...), is the loop over I it abbreviates; the DSL objects are
 abstract (struct vx_Term / vx_nterm / vx_rule: what their accessors return -- those accessors are under contract in units terms,
 rules, values); utils::find_str is abstract here (under contract in unit utils)."""
@@ -31,7 +31,7 @@ def F(name, header, csig, rules=(), scope=PARSER, **kw):
     return f
 
 
-MEMB = Call(r'VX_INIT__(\w+)', 'self->{m1} = ({args})', name='R17:member initializer m(e)')
+MEMB = Call(r'VX_INIT__(\w+)', 'self->{m1} = ({args})', name='R19:member initializer m(e)')
 SYM = PARSER + [r'struct\s+symbol\s*(?=\{)']
 F('symbol__ctor0', r'constexpr symbol\(\)', 'void symbol__ctor0(struct symbol* self)', [MEMB], SYM, ctor=True)
 F('symbol__ctor2', r'constexpr symbol\(bool term, size16_t idx\)', 'void symbol__ctor2(struct symbol* self, bool term, size16_t idx)', [MEMB], SYM, ctor=True)
@@ -50,7 +50,7 @@ F('make_symbol_nterm', r'constexpr auto make_symbol\(const nterm<ValueType>& nt\
 F('analyze_rule', r'constexpr void analyze_rule\(const detail::rule<RequiresContext, F, L, R\.\.\.>& r, std::index_sequence<I\.\.\.>\)',
   'void analyze_rule(size16_t Nr, const struct vx_rule* r)',
   [S(r'\(void\((gi\.right_sides\[Nr\]\[I\] = make_symbol\(std::get<I>\(r\.get_r\(\)\)\))\), \.\.\.\);',
-     r'for (size_t I = 0; I < P_N; ++I) VX_PACK_LOOP { gi.right_sides[Nr][I] = vx_make_symbol_item(r, I); }', name='R18:pack expansion over I -> loop'),
+     r'for (size_t I = 0; I < P_N; ++I) VX_PACK_LOOP { gi.right_sides[Nr][I] = vx_make_symbol_item(r, I); }', name='R21:pack expansion over I -> loop'),
    S(r'sizeof\.\.\.\(R\)', 'P_N', name='R9:sizeof...(R)'),
    S(r'gi\.rule_infos\[Nr\] = \{', 'gi.rule_infos[Nr] = (struct rule_info){', name='R16:braced assignment')])
 
